@@ -4,6 +4,7 @@ import StorageModel.C15.Config
 import StorageModel.C15.Cursor
 import StorageModel.C15.Order
 import StorageModel.C15.Extended
+import StorageModel.C15.Layout
 /- model driver for C15: `run spec` reads case lines on stdin and prints one output line per case
    (spec = false: the engine model's output; spec = true: the spec's verdict).
 
@@ -18,6 +19,9 @@ import StorageModel.C15.Extended
      <results> commit|abort E <events delivered> F <FindById…> Q <QueryIds…> I <Iterate…> X <index reads…> D <bucket dump>
 
    case line:   g <history>             as h, with the child stores registered in the order A2, A1
+
+   every kind token may carry the shape of the layering: <kind>~<p1>~<p2>~<base>  (BasePath of A1, of A2,
+   of the parent store; segments separated by `.`; default ext1, ext2, u)
 
    case line:   k <history> <item>;<item>;…      the history, then in one read transaction
      item: <s>/i/<filter>/<steps>     IterateIds(filter) through store s, driven by the script
@@ -146,44 +150,102 @@ def fieldP : Option Nat → String
   | none => "\\x07"
   | some v => "\\x05" ++ valS v
 
-def dumpLines (st : St) : List String :=
-  let fixed := ["/u/", "/u/indexes/", "/u/indexes/things/", "/u/indexes/things/name/",
-    "/u/indexes/things/roles/", "/u/indexes/things/code/", "/u/things/"]
-  let ents := (canon (mkeys st.ents)).flatMap fun id =>
-    match mget st.ents id with
-    | none => []
-    | some e =>
-      let b := s!"/u/things/{idS id}/"
-      [b, b ++ "name=\\x05" ++ valS e.name, b ++ "roles/"] ++
-      (e.roles.map fun r => b ++ "roles/\\x05" ++ roleS r ++ "=") ++
-      (match e.c1 with
-       | none => []
-       | some c => [b ++ "ext1/", b ++ "ext1/code=" ++ fieldP c]) ++
-      (match e.c2 with
-       | none => []
-       | some c => [b ++ "ext2/", b ++ "ext2/colour=" ++ fieldP c])
+/-- the shape of the layering drawn for a case: child data paths (`BasePath` of A1 / A2) and the
+    parent's base path -/
+structure Shape where
+  sch : Schema
+  base : List String
+
+def Shape.default : Shape := ⟨⟨["ext1"], ["ext2"]⟩, ["u"]⟩
+
+def parsePath (s : String) : List String := s.splitOn "."
+
+/-- kind token: `<kind>` or `<kind>~<p1>~<p2>~<base>` (segments separated by `.`) -/
+def parseKind (s : String) : Option (String × Shape) :=
+  match s.splitOn "~" with
+  | [k] => some (k, Shape.default)
+  | [k, p1, p2, b] =>
+    let sh : Shape := ⟨⟨parsePath p1, parsePath p2⟩, parsePath b⟩
+    if sh.sch.wellFormed && !sh.base.isEmpty then some (k, sh) else none
+  | _ => none
+
+def joinPath (p : List String) : String := "/".intercalate p
+
+/-- all non-empty prefixes of a path -/
+def prefixesOf : List String → List (List String)
+  | [] => []
+  | x :: t => [x] :: (prefixesOf t).map (x :: ·)
+
+/-- the lines of one entity bucket, from the model's bucket tree (real paths) -/
+def treeLines (b : String) (t : Tree) : List String :=
+  let sub (q : List String) : String := if q.isEmpty then b else b ++ joinPath q ++ "/"
+  [b] ++ (t.made.flatMap fun m => (prefixesOf m).map sub) ++
+  (t.fields.flatMap fun ((q, k), c) =>
+    match c with
+    | .str v => [sub q ++ k ++ "=" ++ fieldP v]
+    | .list l => (sub q ++ k ++ "/") :: (l.map fun r => sub q ++ k ++ "/\\x05" ++ roleS r ++ "="))
+
+/-- the lines of one entity bucket as the specification lays an entity out: shared fields in the
+    entity bucket, each child's field in that child's data bucket at its path -/
+def entLines (sch : Schema) (b : String) (e : Ent) : List String :=
+  let sub (q : List String) : String := b ++ joinPath q ++ "/"
+  [b, b ++ "name=\\x05" ++ valS e.name, b ++ "roles/"] ++
+  (e.roles.map fun r => b ++ "roles/\\x05" ++ roleS r ++ "=") ++
+  (match e.c1 with
+   | none => []
+   | some c => (prefixesOf sch.p1).map sub ++ [sub sch.p1 ++ "code=" ++ fieldP c]) ++
+  (match e.c2 with
+   | none => []
+   | some c => (prefixesOf sch.p2).map sub ++ [sub sch.p2 ++ "colour=" ++ fieldP c])
+
+def dumpLines (base : List String) (entityLines : List String) (st : St) : List String :=
+  let r := "/" ++ joinPath base ++ "/"
+  let fixed := ((prefixesOf base).map fun q => "/" ++ joinPath q ++ "/") ++
+    [r ++ "indexes/", r ++ "indexes/things/", r ++ "indexes/things/name/",
+     r ++ "indexes/things/roles/", r ++ "indexes/things/code/", r ++ "things/"]
   let names := (canon (mkeys st.nameIdx)).flatMap fun v =>
     match mget st.nameIdx v with
     | none => []
-    | some id => [s!"/u/indexes/things/name/{valS v}={idS id}"]
+    | some id => [r ++ s!"indexes/things/name/{valS v}={idS id}"]
   let codes := (canon (mkeys st.codeIdx)).flatMap fun v =>
     match mget st.codeIdx v with
     | none => []
-    | some id => [s!"/u/indexes/things/code/{valS v}={idS id}"]
+    | some id => [r ++ s!"indexes/things/code/{valS v}={idS id}"]
   let roleVals := canon (st.rolesIdx.map (·.1))
-  let roles := roleVals.flatMap fun r =>
-    s!"/u/indexes/things/roles/{roleS r}/" ::
-      ((canon ((st.rolesIdx.filter (·.1 == r)).map (·.2))).map fun id =>
-        s!"/u/indexes/things/roles/{roleS r}/\\x05{idS id}=")
-  fixed ++ ents ++ names ++ codes ++ roles
+  let roles := roleVals.flatMap fun rv =>
+    (r ++ s!"indexes/things/roles/{roleS rv}/") ::
+      ((canon ((st.rolesIdx.filter (·.1 == rv)).map (·.2))).map fun id =>
+        r ++ s!"indexes/things/roles/{roleS rv}/\\x05{idS id}=")
+  fixed ++ entityLines ++ names ++ codes ++ roles
 
 def strLe (a b : String) : Bool := a < b || a == b
 
-def obsDump (st : St) : String :=
-  ",".intercalate ((dumpLines st).mergeSort strLe)
+def dedupSorted : List String → List String
+  | a :: b :: t => if a == b then dedupSorted (b :: t) else a :: dedupSorted (b :: t)
+  | l => l
 
-def observe (st : St) : String :=
-  s!"F {obsFind st} Q {obsQuery st} I {obsIter st} X {obsIdx st} D {obsDump st}"
+def renderDump (lines : List String) : String := ",".intercalate (dedupSorted (lines.mergeSort strLe))
+
+/-- model side: the entity buckets are the bucket trees of the stores over real paths -/
+def dumpC (sh : Shape) (stc : StC) : String :=
+  let b (id : Nat) := "/" ++ joinPath sh.base ++ s!"/things/{idS id}/"
+  renderDump (dumpLines sh.base
+    ((canon (mkeys stc.trees)).flatMap fun id =>
+      match mget stc.trees id with
+      | none => []
+      | some t => treeLines (b id) t) (absSt sh.sch stc))
+
+/-- spec side: the entity table laid out by the schema -/
+def dumpS (sh : Shape) (ents : Ents) : String :=
+  let b (id : Nat) := "/" ++ joinPath sh.base ++ s!"/things/{idS id}/"
+  renderDump (dumpLines sh.base
+    ((canon (mkeys ents)).flatMap fun id =>
+      match mget ents id with
+      | none => []
+      | some e => entLines sh.sch (b id) e) (derive ents))
+
+def observe (st : St) (dump : String) : String :=
+  s!"F {obsFind st} Q {obsQuery st} I {obsIter st} X {obsIdx st} D {dump}"
 
 def selS : Sel → String
   | .A => "0"
@@ -203,16 +265,16 @@ def runOps {σ : Type} (f : σ → OpX → Except Err σ) (view : σ → St) (st
     | .ok st' => runOps f view st' evf rest ("ok" :: acc) (evs ++ evf (view st) op)
     | .error e => (none, (errStr e :: acc).reverse, [])
 
-def runHist {σ : Type} (f : σ → OpX → Except Err σ) (view : σ → St) (st : σ) (evf : St → OpX → List Ev) :
-    List (List OpX) → List String → List String
+def runHist {σ : Type} (f : σ → OpX → Except Err σ) (view : σ → St) (dump : σ → String) (st : σ)
+    (evf : St → OpX → List Ev) : List (List OpX) → List String → List String
   | [], acc => acc.reverse
   | tx :: rest, acc =>
     let (r, res, evs) := runOps f view st evf tx [] []
     let st' := r.getD st
     let evText := if evs.isEmpty then "-" else ",".intercalate (evs.map evS)
     let seg := ",".intercalate res ++ (if r.isSome then " commit " else " abort ") ++ "E " ++ evText ++ " " ++
-      observe (view st')
-    runHist f view st' evf rest (seg :: acc)
+      observe (view st') (dump st')
+    runHist f view dump st' evf rest (seg :: acc)
 
 /-! cursor scripts and provider queries (`k` lines) -/
 
@@ -284,38 +346,47 @@ def specItem (ents : Ents) : Item → String
 def itemsOut (f : Item → String) (items : List (String × Item)) : String :=
   "K " ++ " ".intercalate (items.map fun (src, it) => src ++ "=" ++ f it)
 
+/-- model side: the stores over real bucket trees (`stepC`, C15/Layout.lean) with the case's shape.
+    `g`: A2 registered before A1 — the state does not depend on the order
+    (`stepOpXOrd_order_irrelevant`), the events are delivered in it. -/
 def step (line : String) : String :=
   match splitSp line with
-  | ["h", h] =>
-    match parseHist h with
-    | some hist => " ;; ".intercalate (runHist (stepOpX Config.current) id St.init (eventsOfXWith eventsOf) hist [])
-    | none => "bad-case"
-  | ["g", h] =>   -- the same stores with A2 (extended) registered before A1 (C15/Order.lean)
-    match parseHist h with
-    | some hist => " ;; ".intercalate (runHist (stepOpXOrd true Config.current) id St.init (eventsOfXWith (eventsOfOrd true)) hist [])
-    | none => "bad-case"
-  | ["k", h, its] =>
-    match parseHist h, parseItems its with
-    | some hist, some items =>
-      " ;; ".intercalate (runHist (stepOpX Config.current) id St.init (eventsOfXWith eventsOf) hist [] ++
-        [itemsOut (modelItem (runX Config.current St.init hist)) items])
+  | kind :: h :: rest =>
+    match parseKind kind, parseHist h with
+    | some (k, sh), some hist =>
+      let go (evf : St → OpX → List Ev) :=
+        runHist (stepC Config.current sh.sch) (absSt sh.sch) (dumpC sh) StC.init evf hist []
+      match k, rest with
+      | "h", [] => " ;; ".intercalate (go (eventsOfXWith eventsOf))
+      | "g", [] => " ;; ".intercalate (go (eventsOfXWith (eventsOfOrd true)))
+      | "k", [its] =>
+        match parseItems its with
+        | some items =>
+          " ;; ".intercalate (go (eventsOfXWith eventsOf) ++
+            [itemsOut (modelItem (absSt sh.sch (runC Config.current sh.sch StC.init hist))) items])
+        | none => "bad-case"
+      | _, _ => "bad-case"
     | _, _ => "bad-case"
   | _ => "bad-case"
 
+/-- spec side: the entity table; it knows neither registration order nor bucket trees — the dump
+    lays each entity out by the schema -/
 def specStep (line : String) : String :=
   match splitSp line with
-  | ["h", h] =>
-    match parseHist h with
-    | some hist => " ;; ".intercalate (runHist specOpX derive ([] : Ents) (eventsOfXWith eventsOf) hist [])
-    | none => "bad-case"
-  | ["g", h] =>   -- the table specification does not know of a registration order; the events are delivered in it
-    match parseHist h with
-    | some hist => " ;; ".intercalate (runHist specOpX derive ([] : Ents) (eventsOfXWith (eventsOfOrd true)) hist [])
-    | none => "bad-case"
-  | ["k", h, its] =>
-    match parseHist h, parseItems its with
-    | some hist, some items =>
-      " ;; ".intercalate (runHist specOpX derive ([] : Ents) (eventsOfXWith eventsOf) hist [] ++ [itemsOut (specItem (specRunX [] hist)) items])
+  | kind :: h :: rest =>
+    match parseKind kind, parseHist h with
+    | some (k, sh), some hist =>
+      let go (evf : St → OpX → List Ev) :=
+        runHist specOpX derive (dumpS sh) ([] : Ents) evf hist []
+      match k, rest with
+      | "h", [] => " ;; ".intercalate (go (eventsOfXWith eventsOf))
+      | "g", [] => " ;; ".intercalate (go (eventsOfXWith (eventsOfOrd true)))
+      | "k", [its] =>
+        match parseItems its with
+        | some items =>
+          " ;; ".intercalate (go (eventsOfXWith eventsOf) ++ [itemsOut (specItem (specRunX [] hist)) items])
+        | none => "bad-case"
+      | _, _ => "bad-case"
     | _, _ => "bad-case"
   | _ => "bad-case"
 
